@@ -1524,7 +1524,15 @@ class Exec(object):
                 cand = self.str_concat(al, b) if l else b
                 r = cand if r is None else self.merge(a.length == l, cand, r)
             return r
-        raise Unsupported("concatenation of two strings of unknown length")
+        # general case: a fresh string defined pointwise by two universally quantified facts
+        ctx = self.ctx
+        r = ctx.fresh_str("cat", is_bytes=a.is_bytes or b.is_bytes)
+        ctx.assume(r.length == a.length + b.length)
+        i = z3.Int("q_cat_i")
+        ctx.assume(z3.ForAll([i], z3.Implies(z3.And(i >= 0, i < a.length), r.at(i) == a.at(i))))
+        ctx.assume(z3.ForAll([i], z3.Implies(z3.And(i >= 0, i < b.length), r.at(a.length + i) == b.at(i))))
+        ctx.tags.add("quantified definition of the concatenation of two strings of unknown length")
+        return r
 
     def str_repeat(self, s, n):
         s = as_sstr(s)
